@@ -202,6 +202,42 @@ func guards(fd *ast.FuncDecl) []string {
 	return out
 }
 
+// caseLists lists the expression lists of all case clauses in fd, in source order
+func caseLists(fd *ast.FuncDecl) []string {
+	if fd == nil {
+		return nil
+	}
+	var out []string
+	ast.Inspect(fd.Body, func(n ast.Node) bool {
+		if cc, ok := n.(*ast.CaseClause); ok {
+			parts := make([]string, len(cc.List))
+			for i, e := range cc.List {
+				parts[i] = exprStr(e)
+			}
+			out = append(out, strings.Join(parts, ", "))
+		}
+		return true
+	})
+	return out
+}
+
+// calls lists the names of the functions called in fd (plain identifiers only), in source order
+func plainCalls(fd *ast.FuncDecl) []string {
+	if fd == nil {
+		return nil
+	}
+	var out []string
+	ast.Inspect(fd.Body, func(n ast.Node) bool {
+		if ce, ok := n.(*ast.CallExpr); ok {
+			if id, ok := ce.Fun.(*ast.Ident); ok {
+				out = append(out, id.Name+"("+strconv.Itoa(len(ce.Args))+")")
+			}
+		}
+		return true
+	})
+	return out
+}
+
 // all comparison operators (with operands) in fd, in source order
 func comparisons(fd *ast.FuncDecl) []string {
 	if fd == nil {
@@ -283,6 +319,65 @@ func evalInt(e ast.Expr, files pkgFiles) (int64, bool) {
 	return 0, false
 }
 
+// bodyShape renders a function completely, as a flat list: its signature, then every top-level
+// statement; a `for … range` statement is rendered as its header followed by the statements of its
+// body prefixed with "| ". Any edit of the body changes the list (C19: each forwarding method of the
+// multi reporter is exactly one loop over the children calling the same-named method with the same
+// arguments in the same order).
+func bodyShape(fd *ast.FuncDecl) []string {
+	if fd == nil {
+		return nil
+	}
+	out := []string{exprStr(fd.Type)}
+	for _, st := range fd.Body.List {
+		if rs, ok := st.(*ast.RangeStmt); ok {
+			k, v := "_", "_"
+			if rs.Key != nil {
+				k = exprStr(rs.Key)
+			}
+			if rs.Value != nil {
+				v = exprStr(rs.Value)
+			}
+			out = append(out, "for "+k+", "+v+" "+rs.Tok.String()+" range "+exprStr(rs.X))
+			for _, b := range rs.Body.List {
+				out = append(out, "| "+exprStr(b))
+			}
+			continue
+		}
+		out = append(out, exprStr(st))
+	}
+	return out
+}
+
+// structFields lists "name type" for the fields of a struct type declaration.
+func structFields(files pkgFiles, name string) []string {
+	var out []string
+	for _, f := range files {
+		for _, d := range f.Decls {
+			gd, ok := d.(*ast.GenDecl)
+			if !ok || gd.Tok != token.TYPE {
+				continue
+			}
+			for _, s := range gd.Specs {
+				ts := s.(*ast.TypeSpec)
+				if ts.Name.Name != name {
+					continue
+				}
+				st, ok := ts.Type.(*ast.StructType)
+				if !ok {
+					return []string{"type " + exprStr(ts.Type)}
+				}
+				for _, fl := range st.Fields.List {
+					for _, n := range fl.Names {
+						out = append(out, n.Name+" "+exprStr(fl.Type))
+					}
+				}
+			}
+		}
+	}
+	return out
+}
+
 func leanStr(s string) string { return strconv.Quote(s) }
 
 func leanStrList(l []string) string {
@@ -328,7 +423,6 @@ func main() {
 	prom := parseDir(filepath.Join(root, "prometheus"))
 	instr := parseDir(filepath.Join(root, "instrument"))
 	_ = cache
-	_ = multi
 	_ = prom
 
 	o := &out{}
@@ -339,6 +433,9 @@ func main() {
 	o.int("keyPairSplitter", constValue(tally, "keyPairSplitter"), tally, "key_gen.go: keyPairSplitter")
 	o.int("keyNameSplitter", constValue(tally, "keyNameSplitter"), tally, "key_gen.go: keyNameSplitter")
 	o.strs("keyWriterComparisons", comparisons(findFunc(tally, "", "keyForPrefixedStringMapsAsKey")), "comparisons in keyForPrefixedStringMapsAsKey")
+	o.int("keyEscape", constValue(tally, "keyEscape"), tally, "key_gen.go: keyEscape")
+	o.strs("appendKeyEscapedCases", caseLists(findFunc(tally, "", "appendKeyEscaped")), "key_gen.go: bytes escaped by appendKeyEscaped")
+	o.strs("keyWriterCalls", plainCalls(findFunc(tally, "", "keyForPrefixedStringMapsAsKey")), "key_gen.go: calls in the key writer")
 	o.strs("insertionSortComparisons", comparisons(findFunc(tally, "", "insertionSort")), "comparisons in insertionSort")
 
 	// stats.go
@@ -423,6 +520,29 @@ func main() {
 	o.strs("udpWriteComparisons", comparisons(findFunc(udp, "TUDPTransport", "Write")), "comparisons in TUDPTransport.Write")
 	o.strs("udpFlushOps", syncOps(findFunc(udp, "TUDPTransport", "Flush"), map[string]bool{"Write": true, "Reset": true, "IsOpen": true}), "TUDPTransport.Flush")
 
+
+	// multi (C19): complete bodies of the constructors and of every forwarding method
+	for _, m := range [][3]string{
+		{"multiNew", "", "NewMultiReporter"}, {"multiNewCached", "", "NewMultiCachedReporter"},
+		{"multiReportCounter", "multi", "ReportCounter"}, {"multiReportGauge", "multi", "ReportGauge"},
+		{"multiReportTimer", "multi", "ReportTimer"},
+		{"multiReportHistogramValueSamples", "multi", "ReportHistogramValueSamples"},
+		{"multiReportHistogramDurationSamples", "multi", "ReportHistogramDurationSamples"},
+		{"multiCapabilities", "multi", "Capabilities"}, {"multiFlush", "multi", "Flush"},
+		{"multiCachedAllocateCounter", "multiCached", "AllocateCounter"}, {"multiCachedAllocateGauge", "multiCached", "AllocateGauge"},
+		{"multiCachedAllocateTimer", "multiCached", "AllocateTimer"}, {"multiCachedAllocateHistogram", "multiCached", "AllocateHistogram"},
+		{"multiCachedCapabilities", "multiCached", "Capabilities"}, {"multiCachedFlush", "multiCached", "Flush"},
+		{"multiMetricReportCount", "multiMetric", "ReportCount"}, {"multiMetricReportGauge", "multiMetric", "ReportGauge"},
+		{"multiMetricReportTimer", "multiMetric", "ReportTimer"}, {"multiMetricValueBucket", "multiMetric", "ValueBucket"},
+		{"multiMetricDurationBucket", "multiMetric", "DurationBucket"},
+		{"multiHistogramBucketReportSamples", "multiHistogramBucket", "ReportSamples"},
+		{"multiBaseCapabilities", "multiBaseReporters", "Capabilities"}, {"multiBaseFlush", "multiBaseReporters", "Flush"},
+	} {
+		o.strs(m[0], bodyShape(findFunc(multi, m[1], m[2])), "multi/reporter.go: "+m[1]+"."+m[2]+" (signature, statements)")
+	}
+	for _, t := range []string{"multi", "multiCached", "multiMetric", "multiHistogramBucket", "multiBaseReporters"} {
+		o.strs("multiType_"+t, structFields(multi, t), "multi/reporter.go: type "+t)
+	}
 	// statsd
 	o.int("statsdDefaultPrecision", constValue(statsd, "DefaultHistogramBucketNamePrecision"), statsd, "statsd: DefaultHistogramBucketNamePrecision")
 
